@@ -88,8 +88,36 @@ theorem skipBracket_safe (c : List Nat) (endO : Nat) (he : endO ≤ c.length) :
       · exact Safe.ok _ (by omega)
     · exact Safe.ok _ (by omega)
 
+/-- the operators `classify` can return are real operators -/
+def OpChar.good : OpChar → Bool
+  | .two y n _ => y != .noOp && n != .noOp
+  | .sign o => o != .noOp
+  | .single o => o != .noOp
+  | _ => true
+
+theorem opTable_good : opTable.all (fun p => p.2.good) = true := by decide
+
+theorem classify_good (ch : Nat) : (classify ch).good = true := by
+  unfold classify
+  cases h : opTable.find? (fun p => p.1 == ch) with
+  | none => rfl
+  | some p =>
+    have hm := List.mem_of_find?_eq_some h
+    have := List.all_eq_true.mp opTable_good p hm
+    simpa using this
+
+theorem classify_ops (ch : Nat) :
+    (∀ y n s, classify ch = .two y n s → y ≠ .noOp ∧ n ≠ .noOp) ∧
+    (∀ o, classify ch = .sign o → o ≠ .noOp) ∧ (∀ o, classify ch = .single o → o ≠ .noOp) := by
+  have h := classify_good ch
+  refine ⟨?_, ?_, ?_⟩
+  · intro y n s hc; rw [hc] at h; simpa [OpChar.good] using h
+  · intro o hc; rw [hc] at h; simpa [OpChar.good] using h
+  · intro o hc; rw [hc] at h; simpa [OpChar.good] using h
+
 theorem getOperation_safe (c : List Nat) (endO : Nat) (he : endO < c.length) :
-    ∀ f off, off ≤ endO → Safe (getOperation c endO f off) (fun r => r.2 ≤ endO) := by
+    ∀ f off, off ≤ endO → Safe (getOperation c endO f off)
+      (fun r => r.2 ≤ endO ∧ (r.1 = .noOp → r.2 = endO)) := by
   intro f
   induction f with
   | zero => intro off _; exact Safe.fuel
@@ -100,30 +128,36 @@ theorem getOperation_safe (c : List Nat) (endO : Nat) (he : endO < c.length) :
     · rename_i hlt
       apply Safe.bind (rd_safe c off (by omega))
       intro ch _
-      cases classify ch with
+      have hcl := classify_ops ch
+      cases hc : classify ch with
       | two yes no second =>
-        exact Safe.bind (rd_safe c (off + 1) (by omega)) (fun nx _ => Safe.ok _ h)
+        have := hcl.1 yes no second hc
+        refine Safe.bind (rd_safe c (off + 1) (by omega)) (fun nx _ => Safe.ok _ ⟨h, ?_⟩)
+        intro hn; simp only [] at hn; split at hn <;> simp_all
       | sign op =>
+        have := hcl.2.1 op hc
         apply Safe.bind (isExpression_safe c off (by omega))
         intro b _
         split
-        · exact Safe.ok _ h
+        · exact Safe.ok _ ⟨h, fun hn => absurd hn this⟩
         · exact ih _ (by omega)
-      | single op => exact Safe.ok _ h
+      | single op =>
+        have := hcl.2.2 op hc
+        exact Safe.ok _ ⟨h, fun hn => absurd hn this⟩
       | paren =>
         apply Safe.bind (skipParen_safe c endO (by omega) _ _ _ (by omega))
         intro o2 ho2
         split
         · exact ih _ (by omega)
-        · exact Safe.ok _ ho2
+        · exact Safe.ok _ ⟨ho2, fun hn => by cases hn⟩
       | bracket =>
         apply Safe.bind (skipBracket_safe c endO (by omega) _ _ hlt)
         intro o2 ho2
         split
         · exact ih _ (by omega)
-        · exact Safe.ok _ (Nat.le_refl _)
+        · exact Safe.ok _ ⟨Nat.le_refl _, fun hn => by cases hn⟩
       | other => exact ih _ (by omega)
-    · exact Safe.ok _ h
+    · exact Safe.ok _ ⟨h, fun _ => by omega⟩
 
 theorem trimLeft_safe (c : List Nat) (endO : Nat) (he : endO ≤ c.length) :
     ∀ f off, Safe (trimLeft c endO f off) (fun _ => True) := by
